@@ -1,6 +1,7 @@
 import PrysmVerif.Generated.C15
 import PrysmVerif.Lemmas.C15Grid
 import PrysmVerif.Lemmas.C15Mtf
+import PrysmVerif.Lemmas.C15Difflim
 /-!
 # C15 — image formation obeys the convolution theorem; the MTF is a valid MTF
 
@@ -119,6 +120,17 @@ theorem gen_objs {K : Type} [Field K] (f : K → K) (pi fx fy a b : K) (u v : Bo
           simp only [slitFt, pinholeFt, Model.C15.slitFt, Model.C15.pinholeFt, Num.ofInt, if_true, if_false,
             Bool.false_eq_true, Bool.and_true, Bool.and_false, Bool.true_and, Bool.false_and, Bool.not_true, Bool.not_false,
             Bool.and_self] <;> ring_nf)
+
+/-- `otf.diffraction_limited_mtf`: the core formula `(2/π)(arccos ν − ν√(1−ν²))` and the normalised frequency
+`ν = min(|f / extinction|, 1)`, `extinction = 1/(λ/1000·F#)` (array clamp and scalar clamp agree) are the modelled ones,
+over every ordered field and for every interpretation of `arccos`, `sqrt`, `abs` -/
+theorem gen_difflim {K : Type} [Field K] [LinearOrder K] (arccos sqrt abs : K → K) (pi f w F nu : K) :
+    difflimCore arccos sqrt pi nu = Model.C15.difflimCore arccos sqrt pi nu ∧
+    difflimNu abs f w F = Model.C15.difflimNu abs f w F := by
+  refine ⟨?_, ?_⟩ <;>
+    first
+      | rfl
+      | (simp only [difflimCore, difflimNu, Model.C15.difflimCore, Model.C15.difflimNu, Num.npow, Num.ofInt] <;> ring_nf)
 
 /-! ## the DFT contract, from root-of-unity orthogonality -/
 
@@ -441,6 +453,28 @@ theorem object_ft_dc_even (sinc jinc : K → K) (pi fr fx fy a b : K) (u v : Boo
   · simp only [Model.C15.pinholeFt, neg_mul, hjinc]
 
 end analytic
+
+/-- `diffraction_limited_mtf(fno, wavelength, frequencies)` is a valid MTF — with the REAL `arccos`, `√`, `|·|`, `π`, for
+EVERY frequency, wavelength and f-number (no sign or size hypothesis): it is 1 at zero frequency, lies in `[0, 1]`, is even
+in the frequency, and is 0 at and beyond the cut-off `1/(λ/1000·F#)`.  (That it never increases with `|f|` is checked on the
+real code only.) -/
+theorem difflim_valid_mtf (f w F : ℝ) :
+    let mtf := fun f : ℝ => difflimCore Real.arccos Real.sqrt Real.pi (difflimNu (fun x : ℝ => |x|) f w F)
+    mtf 0 = 1 ∧ 0 ≤ mtf f ∧ mtf f ≤ 1 ∧ mtf (-f) = mtf f ∧ (1 ≤ |f / (1 / (w / 1000 * F))| → mtf f = 0) := by
+  intro mtf
+  have hm : ∀ g, mtf g = coreR (Model.C15.difflimNu (fun x : ℝ => |x|) g w F) := fun g => by
+    simp only [mtf, (gen_difflim Real.arccos Real.sqrt (fun x : ℝ => |x|) Real.pi g w F _).1,
+      (gen_difflim Real.arccos Real.sqrt (fun x : ℝ => |x|) Real.pi g w F 0).2, difflimCore_real]
+  obtain ⟨h0, h1⟩ := difflimNu_range f w F
+  refine ⟨?_, ?_, ?_, ?_, fun hc => ?_⟩
+  · rw [hm, difflimNu_zero, coreR_zero]
+  · rw [hm]; exact coreR_nonneg h0 h1
+  · rw [hm]; exact coreR_le_one h0
+  · rw [hm, hm, difflimNu_neg]
+  · rw [hm, difflimNu_cutoff f w F hc, coreR_one]
+
+/-- non-vacuity of the cut-off clause: f/4 at λ = 0.5 µm has its cut-off at 500 cy/mm, and 600 cy/mm lies beyond it -/
+example : (1 : ℝ) ≤ |600 / (1 / (0.5 / 1000 * 4))| := by norm_num [abs_of_nonneg]
 
 /-! ## non-vacuity: the hypotheses are met by the real thing -/
 
